@@ -328,3 +328,37 @@ pub broadcast proof fn lemma_persist_any(g: Formula, w: World, m: HT, s: Asg)
 {
     if w == World::Here { lemma_persistence(g, m, s); }
 }
+
+// ---- T |=cl F is the There world --------------------------------------------------------
+pub proof fn lemma_there_classical(f: Formula, m: HT, s: Asg)
+    ensures ht_sat(f, World::There, m, s) == cl_sat(f, there_interp(m), s),
+    decreases f, 0nat,
+{
+    match f {
+        Formula::AtomicFormula(a) => {}
+        Formula::UnaryFormula { connective, formula } => { lemma_there_classical(*formula, m, s); }
+        Formula::BinaryFormula { connective, lhs, rhs } => {
+            lemma_there_classical(*lhs, m, s);
+            lemma_there_classical(*rhs, m, s);
+        }
+        Formula::QuantifiedFormula { quantification, formula } => {
+            lemma_there_quant(quantification.quantifier, quantification.variables@, *formula, m, s);
+        }
+    }
+}
+
+pub proof fn lemma_there_quant(q: Quantifier, vars: Seq<Variable>, body: Formula, m: HT, s: Asg)
+    ensures ht_quant(q, vars, body, World::There, m, s) == cl_quant(q, vars, body, there_interp(m), s),
+    decreases body, vars.len() + 1,
+{
+    if vars.len() == 0 {
+        lemma_there_classical(body, m, s);
+    } else {
+        let v = vars[0];
+        assert forall|x: Val| ht_quant(q, vars.drop_first(), body, World::There, m, #[trigger] s.insert(vkey(v), x))
+            == cl_quant(q, vars.drop_first(), body, there_interp(m), s.insert(vkey(v), x)) by {
+            lemma_there_quant(q, vars.drop_first(), body, m, s.insert(vkey(v), x));
+        }
+    }
+}
+
